@@ -5,7 +5,9 @@
    (b) spec on the IMPLEMENTATION's result, independent of the model:
        C13: the generator's ownership oracle carried in the case (every statement placed before the first
             violation keeps its bytes; an occupied selection / an over-capacity statement is refused)
-       C05: Asm/LayoutSpec.layout_spec evaluated on the parsed root file                         -> SPECFAIL *)
+       C05: Asm/LayoutSpecExt.layout_spec_ext (= Asm/LayoutSpec.layout_spec plus file scopes: .global/.import/
+            .export/.include) evaluated on the parsed project; the same position-independent statement
+            twice in one file must have the same bytes (order independence)                       -> SPECFAIL *)
 open Util
 
 let str_of_bytes (l : BinNums.coq_N list) : string =
@@ -126,14 +128,35 @@ let c13_spec case impl exps =
   end
 
 (* ---- C05 verdict ---- *)
+let parse_prog (text : BinNums.coq_N list) : Types.element_value list option =
+  match CtxModel.parse_source text with
+  | CtxModel.Parsed (items, None) when Stdlib.List.for_all (fun i -> match i with ParseModel.IOk _ -> true | _ -> false) items ->
+      Some (Stdlib.List.filter_map (fun i -> match i with ParseModel.IOk e -> Some e.Types.e_val | _ -> None) items)
+  | _ -> None
+
+(* statements whose bytes do not depend on where they stand: data values and instructions without a PC-relative operand *)
+let pcrel_mnemonics = ["B"; "BL"; "ADR"; "LDR"; "BEQ"; "BNE"; "BCS"; "BHS"; "BCC"; "BLO"; "BMI"; "BPL"; "BVS"; "BVC"; "BHI"; "BLS"; "BGE"; "BLT"; "BGT"; "BLE"]
+let position_independent (it : LayoutSpec.item) = match it with
+  | LayoutSpec.IData (_, _) -> true
+  | LayoutSpec.IInstr (name, _) -> not (Stdlib.List.mem (Stdlib.String.uppercase_ascii (str_of_bytes name)) pcrel_mnemonics)
+  | _ -> false
+
 let c05_spec case impl fs root_text =
   let status = field impl "status=" in
-  match CtxModel.parse_source root_text with
-  | CtxModel.Parsed (items, None) when Stdlib.List.for_all (fun i -> match i with ParseModel.IOk _ -> true | _ -> false) items ->
-      let prog = Stdlib.List.filter_map (fun i -> match i with ParseModel.IOk e -> Some e.Types.e_val | _ -> None) items in
-      (match LayoutSpec.layout_spec fs prog with
-       | None -> count "c05.spec_undefined"
-       | Some (placed, env) ->
+  match parse_prog root_text with
+  | Some prog ->
+      let base = LayoutSpec.layout_spec fs prog in
+      (match LayoutSpecExt.layout_spec_ext fs parse_prog prog with
+       | None ->
+           count "c05.spec_undefined";
+           if base <> None then failwith "oracle self-check: layout_spec defined where layout_spec_ext is not"
+       | Some (placed, names) ->
+           (* oracle self-check: without .global/.import/.export/.include the extension is LayoutSpec.layout_spec *)
+           (match base with
+            | Some (bp, _) ->
+                if Stdlib.List.map fst bp <> Stdlib.List.map fst placed then failwith "oracle self-check: layout_spec_ext differs from layout_spec";
+                count "c05.ext_equals_base"
+            | None -> count "c05.ext_only");
            (* the reference layout as address -> (byte, statement index); overlapping statements: outside the domain *)
            let h = Hashtbl.create 256 in
            let overlap = ref false in
@@ -146,25 +169,37 @@ let c05_spec case impl fs root_text =
            else begin
              count "c05.checked";
              let img = parse_regions (field impl "regions=") in
-             let labels = Stdlib.List.map (fun (n, _) -> str_of_bytes n) env in
+             let labels = Stdlib.List.map str_of_bytes names in
+             (* order independence: the same position-independent statement of one file yields the same bytes wherever it stands *)
+             let seen = Hashtbl.create 64 in
+             let order_bad = ref None in
+             Stdlib.List.iter (fun ((addr, bytes), key) ->
+               if position_independent (snd key) then begin
+                 let have = bytes_at img (int_of_n addr) (Stdlib.List.length bytes) in
+                 match Hashtbl.find_opt seen key with
+                 | None -> Hashtbl.add seen key (int_of_n addr, have)
+                 | Some (a0, h0) -> count "c05.same_statement_twice"; if h0 <> have && !order_bad = None then order_bad := Some (a0, int_of_n addr)
+               end) placed;
              let bad = ref None in
              Hashtbl.iter (fun a (b, k) -> match (try Some (Hashtbl.find img a) with Not_found -> None) with
                | Some x when x = b -> ()
-               | other -> if !bad = None then bad := Some (a, b, other, k)) h;
-             (match !bad with
-              | Some (a, b, other, k) ->
-                  let ((_, bytes), ids) = Stdlib.List.nth placed k in
-                  let uses_sym = Stdlib.List.exists (fun i -> Stdlib.List.mem (str_of_bytes i) labels) ids in
+               | other -> (match !bad with Some (a', _, _, _) when a' <= a -> () | _ -> bad := Some (a, b, other, k))) h;
+             (match !bad, !order_bad with
+              | Some (a, b, other, k), _ ->
+                  let ((ad, bytes), (_, it)) = Stdlib.List.nth placed k in
+                  let uses_sym = Stdlib.List.exists (fun i -> Stdlib.List.mem (str_of_bytes i) labels) (LayoutSpec.item_idents it) in
                   let all_be = (Stdlib.List.length bytes > 0) &&
-                    Stdlib.List.for_all (fun x -> x = Some 0xBE) (bytes_at img (let ((ad, _), _) = Stdlib.List.nth placed k in int_of_n ad) (Stdlib.List.length bytes)) in
+                    Stdlib.List.for_all (fun x -> x = Some 0xBE) (bytes_at img (int_of_n ad) (Stdlib.List.length bytes)) in
                   let cls = if all_be && uses_sym then "placeholder_left" else if uses_sym then "label_value" else "layout_mismatch" in
                   specfail cls case impl (Printf.sprintf "byte %02x at %x (statement %d), image has %s" b a k
                                             (match other with Some x -> Printf.sprintf "%02x" x | None -> "nothing"))
-              | None ->
+              | None, Some (a0, a1) ->
+                  specfail "order_dependent" case impl (Printf.sprintf "the same bytes for the same statement at %x and at %x" a0 a1)
+              | None, None ->
                   if Hashtbl.length img <> Hashtbl.length h then
                     specfail "layout_mismatch" case impl (Printf.sprintf "exactly %d occupied addresses" (Hashtbl.length h)))
            end)
-  | _ -> count "c05.not_a_statement_sequence"
+  | None -> count "c05.not_a_statement_sequence"
 
 let () = run (fun case impl ->
   let parts = split_on " | " case in
